@@ -49,11 +49,14 @@ AccInit == [bad |-> {},          \* <<phase, op>> : the API answered badly (5xx 
             putAfterStop |-> {}, \* <<thread, n>> ScenarioStarted events enqueued after the stop request
             limitAt |-> 0,       \* phase in which the failure limit was reached (0 = not reached)
             badRecorded |-> TRUE,\* every failed check was recorded with its case, request and reproduction command
+            times |-> <<>>,      \* arrival times (ms) of the requests, only kept when a rate limit is configured
+            rateBad |-> FALSE,
             exit |-> -1, nreq |-> 0]
 
 Init == /\ t \in 1..Len(Runs) /\ l = 1 /\ mon = MonInit /\ acc = AccInit /\ why = ""
 
 IsUnit(ph) == ph \in {2, 3, 4}
+RateJitter == (Hdr.rateW * 2) \div 5       \* scheduling jitter allowance for the rate-limit clause (timing, not logic)
 CountThr(S, thr) == Cardinality({x \in S : x[1] = thr})
 
 Step ==
@@ -79,7 +82,10 @@ Step ==
                  !.sent = @ \cup {<<x.ph, x.op, acc.nreq + 1>>},
                  !.dup = @ \/ (IsUnit(x.ph) /\ <<x.op, x.dg>> \in acc.digests),
                  !.digests = IF IsUnit(x.ph) THEN @ \cup {<<x.op, x.dg>>} ELSE @,
-                 !.reqAfterStopStateful = IF acc.stopped /\ x.ph = Stateful THEN @ + 1 ELSE @]
+                 !.reqAfterStopStateful = IF acc.stopped /\ x.ph = Stateful THEN @ + 1 ELSE @,
+                 !.times = IF Hdr.rateL > 0 THEN Append(@, x.t) ELSE @,
+                 !.rateBad = @ \/ (Hdr.rateL > 0 /\ Len(acc.times) >= Hdr.rateL
+                                     /\ x.t - acc.times[Len(acc.times) - Hdr.rateL + 1] < Hdr.rateW - RateJitter)]
             /\ UNCHANGED mon
        [] x.e = "SEND" ->
             /\ acc' = [acc EXCEPT !.afterStop = IF acc.stopped THEN @ \cup {<<x.thr, CountThr(@, x.thr) + 1>>} ELSE @]
@@ -151,10 +157,13 @@ NoScenarioAfterStop == acc.scsAfterStopUnit = 0 /\ \A x \in acc.putAfterStop : x
 AtMostOneSendAfterStop == /\ \A x \in acc.afterStop : x[2] <= 1
                           /\ acc.reqAfterStopStateful <= 1
 UniqueInputs == Hdr.unique => ~acc.dup
+(* any rateL + 1 consecutive requests span at least one window, up to the stated scheduling jitter (timing, not logic:
+   arrival times are taken by the API, the limiter works on send times) *)
+RateRespected == ~acc.rateBad
 
 AllOK == /\ ProtocolOK /\ EndProtocolOK /\ NoCrash /\ NoProblemLost /\ SchemaErrorsReported /\ FailuresRecordedWithRequest
          /\ ZeroMeansClean /\ ExitCodeSet /\ MaxExamplesRespected /\ MaxFailuresRespected /\ LaterPhasesSkipped
-         /\ NoScenarioAfterStop /\ AtMostOneSendAfterStop /\ UniqueInputs
+         /\ NoScenarioAfterStop /\ AtMostOneSendAfterStop /\ UniqueInputs /\ RateRespected
 
 FirstViolated ==
     IF ~ProtocolOK THEN "C11 ProtocolOK: " \o mon.why
@@ -171,6 +180,7 @@ FirstViolated ==
     ELSE IF ~NoScenarioAfterStop THEN "C12 NoScenarioAfterStop"
     ELSE IF ~AtMostOneSendAfterStop THEN "C12 AtMostOneSendAfterStop"
     ELSE IF ~UniqueInputs THEN "C12 UniqueInputs"
+    ELSE IF ~RateRespected THEN "C12 RateRespected"
     ELSE ""
 
 (* reporting invariant: always TRUE; one line per accepted run, one per first violation of a run *)
